@@ -770,6 +770,12 @@ def fam_d(b, thorough):
                 td["methods"].append('#[diplomat::attr(%s, getter = "foo")] pub fn get_foo(%s) -> %s { unimplemented!() }' % (gate, gsf or "", G.render(gret)))
                 b.add("d", types=[td], m=method(b.mname(), owner=name, okind=kind, selff=ssf, params=[("x", pty)], ret=None,
                                                 attr=(gate, 'setter = "foo"', "setter(name)+getter")), pos="setter")
+                # the same pair declared the other way round (setter first)
+                name2, td2, ft2 = owner(kind)
+                sargs = ", ".join(x for x in (ssf, "x: %s" % G.render(pty)) if x)
+                td2["methods"].append('#[diplomat::attr(%s, setter = "foo")] pub fn set_foo%s(%s) { unimplemented!() }' % (gate, "<'a>" if G.has_lt(pty) else "", sargs))
+                b.add("d", types=[td2], m=method(b.mname(), owner=name2, okind=kind, selff=gsf, params=[], ret=gret,
+                                                 attr=(gate, 'getter = "foo"', "getter(name)+setter before")), pos="getter")
     for kind, sf in (("opaque", "&self"), ("opaque", "&mut self"), ("struct", "self"), ("enum", "self")):
         emit(kind, "stringifier", "stringifier", "stringifier", sf, [("w", ("ref", True, ("write",)))], None)
         emit(kind, "stringifier", "stringifier", "stringifier", sf, [("w", ("ref", True, ("write",)))], ("res", ("unit",), N("En")))
